@@ -89,6 +89,7 @@ AfterDecs(St) == ApplyDecs(MCW, St, St.pd.decs, <<>>, "", 0).S
 
 Bind(St, e, draw, ans) ==
     [ draw |-> draw,
+      upd |-> e.ty = E_UPDATE /\ St.wl = <<>>,
       newg |-> IF e.ty = E_UPDATE /\ St.wl = <<>> THEN SelectSeq([g \in 1..Len(St.gr) |-> g], LAMBDA g : St.gr[g].init)
                ELSE ClosedNew(St, e),
       fuzz |-> IF e.ty = E_PLACEMENT THEN St.ts[e.t].rem ELSE 0,
@@ -123,7 +124,7 @@ MC_C02 == C02_StartedProperly(S)
 MC_C03 == C03_HoldUntilDue(S) /\ C03_CompletedTiming(S) /\ C03_ExactCompletion(MCW, S) /\ C03_NotBeforePlan(S)
 MC_C04 == C04_IdleMeansFull(MCW, S)
 MC_C06 == C06_StarvedNeverRuns(S) /\ C06_CancelClosure(S)
-MC_C07 == C07_OneBranch(S)
+MC_C07 == C07_OneBranch(S) /\ C07_ResolvedAtSubmission(MCW, S)
 MC_C18 ==
     \A la \in 0..2, rtg \in BOOLEAN, ret \in BOOLEAN :
         LET res == Schedulable(S, S.now, la, ret, rtg) IN
